@@ -153,6 +153,54 @@ func c03ScenarioOpt(r *rand.Rand, conflicts bool, c11 bool) (*txWorld, string, e
 				delete(unconf, t)
 			}
 			fp += fmt.Sprintf("B%d", len(in))
+		case k < 80 && !conflicts:
+			// reorganisation: the last one or two blocks are orphaned; the new branch confirms
+			// some of their transactions again, the others are unconfirmed once more
+			w.pumpTxs()
+			d := 1 + r.Intn(2)
+			if d > w.tip.Height-w.start {
+				d = w.tip.Height - w.start
+			}
+			if d < 1 {
+				fp += "p"
+				break
+			}
+			chain := w.tip.Chain()
+			var orphanedTxs []*txInfo
+			for h := w.tip.Height - d + 1; h <= w.tip.Height; h++ {
+				for _, tx := range chain[h].Txs[1:] {
+					if t := w.byID[*tx.TxHash()]; t != nil {
+						orphanedTxs = append(orphanedTxs, t)
+					}
+				}
+			}
+			newTxs := make([][]*txInfo, d+1)
+			remined := map[*txInfo]bool{}
+			for _, t := range orphanedTxs {
+				// a child only together with (after) its parent
+				ok := r.Intn(3) > 0
+				for _, sp := range t.spends {
+					if p := w.byID[sp.Hash]; p != nil && !remined[p] {
+						for _, q := range orphanedTxs {
+							if q == p {
+								ok = false
+							}
+						}
+					}
+				}
+				if ok {
+					remined[t] = true
+					newTxs[0] = append(newTxs[0], t)
+				}
+			}
+			w.reorg(d, newTxs, r.Intn(2) == 0)
+			for _, t := range orphanedTxs {
+				if !remined[t] {
+					delete(confirmed, t)
+					unconf[t] = true
+				}
+			}
+			fp += fmt.Sprintf("G%d.%d", d, len(newTxs[0]))
 		case k < 85:
 			w.pumpTxs()
 			fp += "p"
